@@ -10,8 +10,11 @@ import math
 
 from . import core
 from . import oracle_hkl as O
-from .sgnames import SGNAMES
+from .sgnames import SGNAMES, SYSCOND_TWINS
 
+# every session runs in its own forked child: module-level caches / memo slots in the code under test (the natural
+# home of history-dependent reflection lists) can then only be filled by the session's own calls
+ISOLATE_RUNS = True
 R_GROUPS = [146, 148, 155, 160, 161, 166, 167]
 SETTINGS = [(n, "standard") for n in range(1, 231)] + [(n, "rhombohedral") for n in R_GROUPS]
 DRAW_FUNCS = ["rand", "random", "random_sample", "ranf", "sample", "uniform", "randn", "randint",
@@ -122,7 +125,7 @@ def gen_cell(rng, kind):
 
     def L():
         if long_axis and rng.chance(0.5):
-            return round(rng.uniform(12.0, 40.0), rng.choice([1, 2]))
+            return round(rng.uniform(12.0, 40.0) if rng.chance(0.7) else rng.uniform(40.0, 320.0), rng.choice([1, 2]))
         return round(rng.uniform(2.6, 9.5), rng.choice([1, 2, 4]))
     if kind == "triclinic":
         style = rng.weighted([("generic", 4), ("orthometric", 2), ("oblique", 3), ("nearspecial", 1)])
@@ -165,12 +168,18 @@ def gen_cell(rng, kind):
     return "generic", [a, a, a, 90.0, 90.0, 90.0]
 
 
-def gen_shell(rng, cell, tier, scale):
-    """-> (smin, smax) respecting the 1e-9 margin rule, or None"""
+def gen_shell(rng, cell, tier, scale, min_index=0):
+    """-> (smin, smax) respecting the 1e-9 margin rule, or None.  min_index > 0 asks for a shell that reaches
+    at least that index along every axis (used by the adjacency sweeps, where both shells must share points)"""
     hi = 0.45 if tier == "quick" else 0.8
     cap = 30000 if tier == "quick" else 120000
+    lo = 0.10
+    if min_index:
+        lo = max(lo, (min_index + 0.5) / (2.0 * min(cell[:3])))
+        if lo >= hi:
+            return None
     for _ in range(60):
-        smax = rng.uniform(0.10, hi)
+        smax = rng.uniform(lo, hi)
         while True:
             npts = 1
             for i in range(3):
@@ -178,8 +187,10 @@ def gen_shell(rng, cell, tier, scale):
             if npts <= cap:
                 break
             smax *= 0.85
+        if min_index and smax < lo:
+            continue
         m = rng.below(10)
-        smin = 0.0 if m < 6 else (-0.1 if m == 6 else rng.uniform(0.0, smax * 0.9))
+        smin = 0.0 if (m < 6 or min_index) else (-0.1 if m == 6 else rng.uniform(0.0, smax * 0.9))
         allstl = O.stl_of(O.box_points(cell, smax * scale), O.recip_metric(cell))
         if O.margin_ok(allstl, [smin, smax, smax * scale]):
             return smin, smax
@@ -219,12 +230,12 @@ def gen_schedule(rng, kinds):
     return sch
 
 
-def gen_workload(rng, tier, no, cc):
+def gen_workload(rng, tier, no, cc, min_index=0):
     kind = cell_kind(no, cc)
     _, scale = kf_class(no, cc)
-    for _ in range(20):
+    for _ in range(200):
         style, cell = gen_cell(rng, kind)
-        sh = gen_shell(rng, cell, tier, scale)
+        sh = gen_shell(rng, cell, tier, scale, min_index)
         if sh is not None:
             break
     else:
@@ -238,7 +249,16 @@ def related_workload(rng, tier, w):
     """a second workload of the same session, chosen to differ from the first in few arguments
     (what a cache or a memo keyed on too little would confuse)"""
     no, cc = w["sgno"], w["cell_choice"]
-    r = rng.below(8)
+    r = rng.below(9)
+    if r == 8:
+        # another setting with the same reflection-condition vector but different axes
+        tw = [t for t in SYSCOND_TWINS if [no, cc] in t]
+        if tw:
+            cands = [x for x in tw[0] if cell_kind(x[0], x[1]) != cell_kind(no, cc)]
+            if cands:
+                n2, c2 = rng.choice(cands)
+                return gen_workload(rng, tier, n2, c2, 3)
+        r = rng.below(8)
     if r == 0 and no in R_GROUPS:
         return gen_workload(rng, tier, no, "rhombohedral" if cc == "standard" else "standard")
     if r <= 2:
@@ -286,10 +306,29 @@ def gen_mode(rng, no, cc):
     return {"by": "sgname", "name": name_variant(rng, rng.choice(auto))}
 
 
+def _twin_pairs():
+    out = []
+    for t in SYSCOND_TWINS:
+        for a in t:
+            for b in t:
+                if a != b and cell_kind(a[0], a[1]) != cell_kind(b[0], b[1]):
+                    out.append((tuple(a), tuple(b)))
+    return out
+
+
+TWIN_PAIRS = _twin_pairs()
+N_ENUM = 2 * len(SETTINGS) + len(TWIN_PAIRS)
+
+
 def generate(rng, tier, index):
+    twin = None
     if index < 2 * len(SETTINGS):
         no, cc = SETTINGS[index % len(SETTINGS)]
         module = ["tools", "laue"][(index // len(SETTINGS)) % 2]
+    elif index < N_ENUM:
+        # systematic adjacency sweep: setting A, then setting B with the same condition vector on other axes
+        (no, cc), twin = TWIN_PAIRS[index - 2 * len(SETTINGS)]
+        module = rng.choice(["tools", "laue"])
     else:
         # R-centred groups get extra weight (two settings each)
         if rng.below(10) == 0:
@@ -297,8 +336,10 @@ def generate(rng, tier, index):
         else:
             no, cc = rng.choice(SETTINGS)
         module = rng.choice(["tools", "laue"])
-    workloads = [gen_workload(rng, tier, no, cc)]
-    if index >= 2 * len(SETTINGS) and rng.chance(0.35):
+    workloads = [gen_workload(rng, tier, no, cc, 3 if twin is not None else 0)]
+    if twin is not None:
+        workloads.append(gen_workload(rng, tier, twin[0], twin[1], 3))
+    elif index >= N_ENUM and rng.chance(0.35):
         workloads.append(related_workload(rng, tier, workloads[0]))
         if rng.chance(0.25):
             workloads.append(related_workload(rng, tier, workloads[rng.below(2)]))
@@ -876,7 +917,7 @@ RULE = ("one run = one simulated session: 1-3 workloads (group setting, conformi
         "workloads differ from the first in few arguments) and 3-12 interleaved calls of genhkl_all / genhkl_unique (tools or "
         "laue, by number or by name, with or without the sintl column), each genhkl_all under its own schedule of the "
         "process-global numpy RNG stream (start state, prior consumption, steals and hostile reseeds before individual draws, "
-        "or the stream left by the previous call); run indices below 474 enumerate all 237 settings x 2 modules; distinct = "
+        "or the stream left by the previous call); run indices below 474 enumerate all 237 settings x 2 modules, the next 292 all ordered pairs of settings that share a reflection-condition vector on different axes; distinct = "
         "distinct trace digest; non-trivial = the shells contain at least one allowed reflection and at least one draw was "
         "intercepted")
 
